@@ -690,8 +690,10 @@ class EvolveAppTask(BaseEvolutionTask):
             applied_evolutions = get_applied_evolutions(task.app,
                                                         database=database_name)
 
-            if applied_evolutions:
-                graph.mark_evolutions_applied(task.app, applied_evolutions)
+            # This must be called even if there are no applied evolutions.
+            # If the app has nothing to evolve, any dependencies other apps
+            # have on it as a whole must be dropped as well.
+            graph.mark_evolutions_applied(task.app, applied_evolutions)
 
         # The graph is built! Finalize it (which will check that all
         # dependencies are valid) so we can begin converting it into batches
